@@ -32,7 +32,7 @@ def _chunk(args):
     if len(out) != n:
         if res.timeout:      # the search for an explaining behaviour ran out of time: these traces stay unvalidated (a drift note)
             return {i: (False, -1, 0) for i in range(1, n + 1)}, res.distinct
-        raise tlc.TLCError("conformance %s: %d verdicts for %d traces\n%s" % (trace_module, len(out), n, res.stdout[-3000:]))
+        raise tlc.TLCError("conformance %s: %d verdicts for %d traces\n%s" % (trace_module, len(out), n, res.stdout[:2500] + "\n...\n" + res.stdout[-1500:]))
     return out, res.distinct
 
 
@@ -102,7 +102,7 @@ def _chunk2(args):
         if m:
             out[int(m.group(1))] = (m.group(2) == "ACCEPT", int(m.group(3)), int(m.group(4)))
     if len(out) != n:
-        raise tlc.TLCError("conformance SD2Trace: %d verdicts for %d traces\n%s" % (len(out), n, res.stdout[-3000:]))
+        raise tlc.TLCError("conformance SD2Trace: %d verdicts for %d traces\n%s" % (len(out), n, res.stdout[:2500] + "\n...\n" + res.stdout[-1500:]))
     return out, res.distinct
 
 
